@@ -966,7 +966,7 @@ MANIFEST = {
                    "(script_transparent: a copy continues its original's sequence, a variate owns its copy, assignment re-seats the "
                    "generator); the interval reaches the wrapped distribution unchanged "
                    "(interval_passed_exactly); under the standard's contract a <= x <= b the draws lie in the requested interval, enum "
-                   "draws are enumerators, container indices are valid and elements are members (in_range, enum_in_range, index_valid, "
+                   "draws are enumerators, container indices are valid and elements are members (in_range, script_in_range, enum_in_range, index_valid, "
                    "container_elem_mem, container_script_safe); the index/container factories return nothing exactly for an empty container (empty_gives_none). "
                    "The model is tied to the code by a differential correspondence that replays the real std pair's output into the model "
                    "and is exhaustive over the intervals, enum sizes and container sizes named by the property, plus systematic programs "
